@@ -2,6 +2,8 @@
 package c10
 
 import (
+	"encoding/json"
+	"time"
 	"strconv"
 	"bytes"
 	"fmt"
@@ -1000,6 +1002,15 @@ func (g GoVal) build() (v any, want *val.V, mustReject bool, spec bool) {
 		v = loudFloat(g.F)
 		x := val.Float(g.F)
 		want = &x
+	case "jsonNumber":
+		// a number of a JSON document decoded with UseNumber(): a string type whose text denotes a number. Kept as
+		// that text, or stored as the number the text denotes (an integer literal exactly; a decimal literal as the
+		// float64 every JSON reader gives it), or rejected
+		v = json.Number(g.S)
+		want = &val.V{K: "numtext", S: g.S}
+	case "duration":
+		v = time.Duration(g.I)
+		want, mustReject = okInt(g.I)
 	case "uint":
 		v = uint(g.U)
 		want, mustReject = okUint(g.U)
@@ -1196,6 +1207,38 @@ func exactEqual(n ipld.Node, w val.V) bool {
 	if n == nil {
 		return false
 	}
+	if w.K == "numtext" {
+		r, isNum := new(big.Rat).SetString(w.S)
+		if strings.ContainsAny(w.S, "_xXoObBpP/ +") || w.S == "" {
+			isNum = false // big.Rat reads more than JSON number syntax
+		}
+		switch n.Kind() {
+		case ipld.Kind_String:
+			s, _ := n.AsString()
+			return s == w.S
+		case ipld.Kind_Int:
+			if !isNum {
+				return false
+			}
+			if un, ok := n.(datamodel.UintNode); ok {
+				u, err := un.AsUint()
+				return err == nil && new(big.Rat).SetInt(new(big.Int).SetUint64(u)).Cmp(r) == 0
+			}
+			i, err := n.AsInt()
+			return err == nil && new(big.Rat).SetInt64(i).Cmp(r) == 0
+		case ipld.Kind_Float:
+			f, _ := n.AsFloat()
+			if !isNum || math.IsNaN(f) || math.IsInf(f, 0) {
+				return false
+			}
+			if r.IsInt() {
+				return new(big.Rat).SetFloat64(f).Cmp(r) == 0
+			}
+			pf, err := strconv.ParseFloat(w.S, 64)
+			return err == nil && pf == f
+		}
+		return false
+	}
 	switch w.K {
 	case "uint": // true value above MaxInt64: only an unsigned node holding exactly it is "exact"
 		if n.Kind() != ipld.Kind_Int {
@@ -1381,12 +1424,21 @@ func runVal(c *h.Ctx, vc ValCase) {
 
 var intEdges = []int64{0, 1, -1, 127, -128, 255, 32767, -32768, 65535, math.MaxInt32, math.MinInt32, math.MaxUint32, maxSafe - 1, maxSafe, maxSafe + 1, -maxSafe, -maxSafe - 1, math.MaxInt64, math.MinInt64, math.MaxInt64 - 1}
 var uintEdges = []uint64{0, 1, 255, 256, 65535, 65536, math.MaxUint32, maxSafe - 1, maxSafe, maxSafe + 1, math.MaxInt64, math.MaxInt64 + 1, math.MaxUint64 - 4, math.MaxUint64}
-var scalarTypes = []string{"int", "int8", "int16", "int32", "int64", "myInt", "uint", "uint8", "uint16", "uint32", "uint64", "uintptr", "myUint", "float64", "float32", "string", "myStr", "bool", "bytes", "nil", "struct", "chan", "func", "intkeymap", "nilptr", "loudInt", "loudStr", "loudSlice", "loudBool", "loudFloat"}
+var scalarTypes = []string{"int", "int8", "int16", "int32", "int64", "myInt", "uint", "uint8", "uint16", "uint32", "uint64", "uintptr", "myUint", "float64", "float32", "string", "myStr", "bool", "bytes", "nil", "struct", "chan", "func", "intkeymap", "nilptr", "loudInt", "loudStr", "loudSlice", "loudBool", "loudFloat", "jsonNumber", "duration"}
+
+var numberTexts = []string{"0", "1", "-1", "-0", "9007199254740991", "9007199254740992", "-9007199254740992", "9223372036854775807", "9223372036854775808", "-9223372036854775808", "-9223372036854775809",
+	"18446744073709551615", "18446744073709551616", "12345678901234567891", "100000000000000000000000000000000000000", "1e3", "1E2", "1.5", "0.1", "2.50", "1e400", "-1e400", "1e-400", "12345678901234567891.5",
+	"", "abc", "1.2.3", "0x10", "1_000", " 1", "1 ", "+1", "٣", "NaN", "Infinity", "1e", "--1", "01", ".5", "5."}
 
 func drawScalar(t *rapid.T, label string) GoVal {
 	g := GoVal{T: rapid.SampledFrom(scalarTypes).Draw(t, label+"_t")}
 	switch {
-	case strings.HasPrefix(g.T, "int") || g.T == "myInt" || g.T == "struct" || g.T == "bool" || g.T == "loudInt" || g.T == "loudBool":
+	case g.T == "jsonNumber":
+		g.S = rapid.SampledFrom(numberTexts).Draw(t, label+"_num")
+		if rapid.IntRange(0, 3).Draw(t, label+"_numr") == 0 {
+			g.S = rapid.StringMatching(`-?[1-9][0-9]{0,24}(\.[0-9]{1,3})?(e[0-9]{1,2})?`).Draw(t, label+"_numx")
+		}
+	case strings.HasPrefix(g.T, "int") || g.T == "myInt" || g.T == "struct" || g.T == "bool" || g.T == "loudInt" || g.T == "loudBool" || g.T == "duration":
 		if rapid.Bool().Draw(t, label+"_edge") {
 			g.I = rapid.SampledFrom(intEdges).Draw(t, label+"_ie")
 		} else {
@@ -1469,6 +1521,13 @@ func TestValueEdges(t *testing.T) {
 				valProp.One(t, ValCase{V: GoVal{T: "uintslice", L: []GoVal{{T: "uint", U: e}}}, API: api})
 				valProp.One(t, ValCase{V: GoVal{T: "map", L: []GoVal{{T: ty, U: e}}, K: []string{"x"}}, API: api})
 			}
+		}
+		// numbers of a JSON document, alone and nested, through every API
+		for _, nt := range numberTexts {
+			lv := GoVal{T: "jsonNumber", S: nt}
+			valProp.One(t, ValCase{V: lv, API: api})
+			valProp.One(t, ValCase{V: GoVal{T: "slice", L: []GoVal{lv}, K: []string{"x"}}, API: api})
+			valProp.One(t, ValCase{V: GoVal{T: "map", L: []GoVal{lv, {T: "duration", I: 1500}}, K: []string{"x", "d"}}, API: api})
 		}
 		// the loud types, alone and nested, through every API
 		for _, lv := range []GoVal{{T: "loudInt", I: 4}, {T: "loudInt", I: -1}, {T: "loudInt", I: maxSafe + 1}, {T: "loudStr", S: "high"}, {T: "loudStr", S: ""}, {T: "loudSlice", S: "b"}, {T: "loudBool", I: 1}, {T: "loudBool", I: 0}, {T: "loudFloat", F: 2.5}} {
